@@ -217,3 +217,94 @@ func AliasTwinDefs(r *core.Rng, s *Schema, tag string) []*Def {
 	}
 	return nil
 }
+
+// InlineTwinOp: two selections of one interface-typed root field that are given the same Go type
+// name by `typename` and differ only INSIDE an inline fragment.
+func InlineTwinOp(r *core.Rng, s *Schema, typename string) *Def {
+	for _, f := range s.FieldsOf("Query") {
+		td := s.Get(f.Type.Base())
+		if td == nil || td.Kind != "INTERFACE" {
+			continue
+		}
+		req := false
+		for _, a := range f.Args {
+			if a.Type.NonNull && a.Default == "" {
+				req = true
+			}
+		}
+		if req {
+			continue
+		}
+		for _, p := range s.PossibleTypes(td.Name) {
+			var leaves []string
+			for _, lf := range s.FieldsOf(p) {
+				if s.IsLeaf(lf.Type.Base()) && len(lf.Args) == 0 {
+					leaves = append(leaves, lf.Name)
+				}
+			}
+			if len(leaves) < 2 {
+				continue
+			}
+			a, b := leaves[0], leaves[1+r.Intn(len(leaves)-1)]
+			text := fmt.Sprintf("query ZTwinI {\n  # @genqlient(typename: %q)\n  t1: %s {\n    ... on %s {\n      %s\n    }\n  }\n  # @genqlient(typename: %q)\n  t2: %s {\n    ... on %s {\n      %s\n    }\n  }\n}\n",
+				typename, f.Name, p, a, typename, f.Name, p, b)
+			return &Def{Kind: "query", Name: "ZTwinI", Text: text}
+		}
+	}
+	return nil
+}
+
+// RenameFragment renames a named fragment and every spread of it.
+func (d *Doc) RenameFragment(old, nw string) {
+	var walk func(sels []*Sel)
+	walk = func(sels []*Sel) {
+		for _, x := range sels {
+			if x.Kind == "spread" && x.Name == old {
+				x.Name = nw
+			}
+			walk(x.Sub)
+		}
+	}
+	for _, f := range d.Frags {
+		if f.Name == old {
+			f.Name = nw
+		}
+		walk(f.Sel)
+	}
+	for _, o := range d.Ops {
+		walk(o.Sel)
+	}
+}
+
+// FragmentNameClash renames one fragment to <other fragment><possible type of that fragment's
+// type>: the name genqlient gives the other fragment's implementation struct for that type.
+func FragmentNameClash(r *core.Rng, s *Schema, d *Doc) bool {
+	for _, f := range d.Frags {
+		if !s.IsAbstract(f.On) {
+			continue
+		}
+		ps := s.PossibleTypes(f.On)
+		if len(ps) == 0 {
+			continue
+		}
+		for _, g := range d.Frags {
+			if g == f {
+				continue
+			}
+			p := ps[r.Intn(len(ps))]
+			nw := f.Name + strings.ToUpper(p[:1]) + p[1:]
+			taken := false
+			for _, h := range d.Frags {
+				if h.Name == nw {
+					taken = true
+				}
+			}
+			if taken {
+				continue
+			}
+			d.RenameFragment(g.Name, nw)
+			return true
+		}
+	}
+	return false
+}
